@@ -46,3 +46,37 @@ Definition ex_double : obj := jset K_affine other_affine ex_short.
 
 (** The same content under version 0.6 lacks dcmmeta_reorient_transform. *)
 Definition ex_v06 : obj := jset K_version (JNum (lit "0.6")) ex_obj.
+
+(** ** Witnesses of the blind spots (accepted by check_valid, forbidden by the literal rules) *)
+Definition mk_obj (shape : list Z) (sd : jv) (affine : jv) (classes : obj) : obj :=
+  ([ (K_shape, JArr (map JInt shape)); (K_affine, affine); (K_slice_dim, sd);
+     (K_version, JNum (lit "0.5")) ] ++ classes)%list.
+
+(** shape (2,2,1,2), slice dim 2: ('time','slices') has multiplicity 1, yet holds three values *)
+Definition gapw_degenerate : jv :=
+  JObj (mk_obj [2; 2; 1; 2] (JInt 2) ident_affine
+    [ (N_global, JObj [(N_const, JObj []); (N_slices, JObj [])]);
+      (N_time, JObj [(N_samples, JObj []); (N_slices, JObj [(lit "k", JArr [JInt 1; JInt 2; JInt 3])])]) ]).
+
+(** shape (2,2,2,1,2): the 'time' dictionaries are stale; a constant's key is repeated there *)
+Definition gapw_stale : jv :=
+  JObj (mk_obj [2; 2; 2; 1; 2] JNull ident_affine
+    [ (N_global, JObj [(N_const, JObj ex_const); (N_slices, JObj [])]);
+      (N_time, JObj [(N_samples, JObj [(lit "PatientID", JArr [JInt 1])]); (N_slices, JObj [])]);
+      (N_vector, JObj [(N_samples, JObj []); (N_slices, JObj [])]) ]).
+
+(** shape (2,2,-3,2) *)
+Definition gapw_nonpositive : jv :=
+  JObj (mk_obj [2; 2; -3; 2] JNull ident_affine
+    [ (N_global, JObj [(N_const, JObj ex_const); (N_slices, JObj [])]);
+      (N_time, JObj [(N_samples, JObj ex_tsamples); (N_slices, JObj [])]) ]).
+
+(** a 4x4 affine with a string entry *)
+Definition gapw_affine : jv :=
+  JObj (jset K_affine
+    (JArr [JArr [JStr (lit "x"); JInt 0; JInt 0; JInt 0]; JArr [JInt 0; JInt 1; JInt 0; JInt 0];
+           JArr [JInt 0; JInt 0; JInt 1; JInt 0]; JArr [JInt 0; JInt 0; JInt 0; JInt 1]]) ex_obj).
+
+(** two values prescribed, the two-character string "ab" given *)
+Definition gapw_sized : jv :=
+  JObj (cls_set cl_tsamples (jset (lit "EchoTime") (JStr (lit "ab")) ex_tsamples) ex_obj).
